@@ -20,8 +20,8 @@ NOSCHED = "mkdir,mkdirat,fstat"
 def run(ctx, rng, modes):
     work = ctx.new_dir("midcall")
     sizes = [5, 70001] if ctx.quick else [1, 5, 9000, 70001, (1 << 20) + 5]
-    cap = 45 if ctx.quick else 700
-    nrand = 6 if ctx.quick else 60
+    cap = 45 if ctx.quick else 160
+    nrand = 6 if ctx.quick else 30
     outcomes = {}
     for size in sizes:
         data = rng.randbytes(size)
